@@ -2,6 +2,7 @@ package main
 
 import (
 	"fmt"
+	"hash/fnv"
 	"go/constant"
 	"go/token"
 	"go/types"
@@ -119,9 +120,18 @@ func specStrLit(v string) string {
 	if c, ok := specLits[v]; ok {
 		return c
 	}
-	c := fmt.Sprintf("slit!%d", len(specLits))
+	// the name depends only on the content, so that a query does not depend on which other functions were processed before
+	h := fnv.New64a()
+	h.Write([]byte(v))
+	c := fmt.Sprintf("slit!%x", h.Sum64())
+	for _, o := range specLits {
+		if o == c {
+			panic("string literal hash collision")
+		}
+	}
 	specLits[v] = c
 	specLitOrder = append(specLitOrder, v)
+	sort.Strings(specLitOrder)
 	return c
 }
 
